@@ -166,7 +166,7 @@ func (e *Engine) ensureInit(pkg *ssa.Package) {
 					e.stack = e.stack[:savedStack]
 				}
 			}()
-			e.call(init, nil, nil)
+			e.callSSA(init, nil, nil)
 		}()
 		e.tolerant--
 		e.epoch = savedEpoch
@@ -236,10 +236,18 @@ func (e *Engine) call(fn *ssa.Function, args []Value, env []Value) Value {
 		fn = repl
 		name = repl.String()
 	}
+	if e.tolerant > 0 && len(e.stack) > 0 && (fn.Name() == "init" || strings.HasPrefix(fn.Name(), "init#")) && fn.Signature.Recv() == nil {
+		// nested package initialisers and user init() functions are not run: packages are
+		// initialised lazily on first access to one of their variables
+		return Tuple(nil)
+	}
+	return e.callSSA(fn, args, env)
+}
+
+// callSSA interprets fn's own SSA body (no intrinsic / summary / intercept lookup).
+func (e *Engine) callSSA(fn *ssa.Function, args []Value, env []Value) Value {
+	name := fn.String()
 	if len(fn.Blocks) == 0 {
-		if fn.Synthetic != "" && fn.Pkg == nil {
-			// synthetic wrapper not yet built?
-		}
 		e.unsupported("function without body: %s", name)
 	}
 	if len(e.stack) > 400 {
